@@ -21,12 +21,14 @@ class LfsEnvelope:
 
 
 def is_lfs_envelope(value: bytes | None) -> bool:
-    if not value or len(value) < 15:
+    if not value:
         return False
     if value[:1] != b"{":
         return False
-    prefix = value[:50].decode("utf-8", errors="ignore")
-    return "\"kfs_lfs\"" in prefix
+    # Byte-level search, like the Go and JavaScript detectors: decoding with
+    # errors="ignore" would drop invalid bytes and could assemble a marker that
+    # is not in the data.
+    return b"\"kfs_lfs\"" in value[:50]
 
 
 def decode_envelope(value: bytes) -> LfsEnvelope:
